@@ -9,6 +9,14 @@
 //     are only re-sliced, like `p.stack = p.stack[:0]`, count: the statement gives them a fixed value.)
 //   - parserCases / tokenizerCases: the case labels of `switch p.mode[b]` / `switch t.mode[b]` in
 //     parseBuffer / tokenizeBuffer, in source order.
+//   - facts that pin the repaired code (undoing a fix changes the value, and a theorem of
+//     Props/C03sen.lean / C06sen.lean compares it):
+//     parserSpaceMapIndexed / tokenizerSpaceMapIndexed: number of `spaceMap[…]` index expressions in
+//     parseBuffer / tokenizeBuffer (the whitespace skip after a newline must use the current mode);
+//     addStringUnchecked: number of one-valued type assertions `x.(T)` in (*Parser).addString;
+//     parserCloseObjectMsgs / tokenizerCloseObjectMsgs: string literals passed to newError in
+//     `case closeObject`; tokenizerStrQuoteFields: receiver fields named in `case strQuote` of the
+//     tokenizer; tokenizerContinueCases: cases of the tokenizer switch whose last statement is `continue`.
 //
 // Fails loudly on a source shape it cannot read.
 package main
@@ -173,6 +181,159 @@ func senSwitchCases(f *ast.File, recvType, fn string) ([]string, error) {
 	return cases, nil
 }
 
+// senSwitch returns the `switch x.mode[b]` statement of the function.
+func senSwitch(f *ast.File, recvType, fn string) (*ast.SwitchStmt, string, error) {
+	fd := senFuncDecl(f, recvType, fn)
+	if fd == nil || fd.Body == nil || len(fd.Recv.List[0].Names) != 1 {
+		return nil, "", fmt.Errorf("sen: func (*%s).%s not found", recvType, fn)
+	}
+	var res *ast.SwitchStmt
+	ast.Inspect(fd.Body, func(x ast.Node) bool {
+		sw, ok := x.(*ast.SwitchStmt)
+		if !ok || res != nil {
+			return res == nil
+		}
+		ie, ok := sw.Tag.(*ast.IndexExpr)
+		if !ok {
+			return true
+		}
+		se, ok := ie.X.(*ast.SelectorExpr)
+		if !ok || se.Sel.Name != "mode" {
+			return true
+		}
+		if id, ok := ie.Index.(*ast.Ident); !ok || id.Name != "b" {
+			return true
+		}
+		res = sw
+		return false
+	})
+	if res == nil {
+		return nil, "", fmt.Errorf("sen: %s: `switch x.mode[b]` not found", fn)
+	}
+	return res, fd.Recv.List[0].Names[0].Name, nil
+}
+
+func senCaseClause(sw *ast.SwitchStmt, label string) *ast.CaseClause {
+	for _, c := range sw.Body.List {
+		cc := c.(*ast.CaseClause)
+		for _, e := range cc.List {
+			if id, ok := e.(*ast.Ident); ok && id.Name == label {
+				return cc
+			}
+		}
+	}
+	return nil
+}
+
+// senIndexCount counts index expressions `name[…]` in the function body.
+func senIndexCount(f *ast.File, recvType, fn, name string) (int, error) {
+	fd := senFuncDecl(f, recvType, fn)
+	if fd == nil || fd.Body == nil {
+		return 0, fmt.Errorf("sen: func (*%s).%s not found", recvType, fn)
+	}
+	n := 0
+	ast.Inspect(fd.Body, func(x ast.Node) bool {
+		if ie, ok := x.(*ast.IndexExpr); ok {
+			if id, ok := ie.X.(*ast.Ident); ok && id.Name == name {
+				n++
+			}
+		}
+		return true
+	})
+	return n, nil
+}
+
+// senUncheckedAsserts counts type assertions whose failure panics: every `x.(T)` that is not the
+// single right-hand side of a two-valued assignment or definition.
+func senUncheckedAsserts(f *ast.File, recvType, fn string) (int, error) {
+	fd := senFuncDecl(f, recvType, fn)
+	if fd == nil || fd.Body == nil {
+		return 0, fmt.Errorf("sen: func (*%s).%s not found", recvType, fn)
+	}
+	checked := map[*ast.TypeAssertExpr]bool{}
+	total := 0
+	ast.Inspect(fd.Body, func(x ast.Node) bool {
+		switch t := x.(type) {
+		case *ast.AssignStmt:
+			if len(t.Lhs) == 2 && len(t.Rhs) == 1 {
+				if ta, ok := t.Rhs[0].(*ast.TypeAssertExpr); ok {
+					checked[ta] = true
+				}
+			}
+		case *ast.TypeAssertExpr:
+			if t.Type != nil {
+				total++
+			}
+		}
+		return true
+	})
+	return total - len(checked), nil
+}
+
+// senErrorMsgs: the string literals given as format to newError in the statements.
+func senErrorMsgs(cc *ast.CaseClause) []string {
+	var out []string
+	for _, st := range cc.Body {
+		ast.Inspect(st, func(x ast.Node) bool {
+			ce, ok := x.(*ast.CallExpr)
+			if !ok {
+				return true
+			}
+			se, ok := ce.Fun.(*ast.SelectorExpr)
+			if !ok || se.Sel.Name != "newError" {
+				return true
+			}
+			for _, a := range ce.Args {
+				if bl, ok := a.(*ast.BasicLit); ok && bl.Kind == token.STRING {
+					out = append(out, strings.Trim(bl.Value, "\"`"))
+				}
+			}
+			return true
+		})
+	}
+	return out
+}
+
+func senFieldsNamed(cc *ast.CaseClause, recv string) []string {
+	set := map[string]bool{}
+	for _, st := range cc.Body {
+		ast.Inspect(st, func(x ast.Node) bool {
+			if se, ok := x.(*ast.SelectorExpr); ok {
+				if id, ok := se.X.(*ast.Ident); ok && id.Name == recv {
+					set[se.Sel.Name] = true
+				}
+			}
+			return true
+		})
+	}
+	var out []string
+	for k := range set {
+		out = append(out, k)
+	}
+	sort.Strings(out)
+	return out
+}
+
+func senContinueCases(sw *ast.SwitchStmt) []string {
+	var out []string
+	for _, c := range sw.Body.List {
+		cc := c.(*ast.CaseClause)
+		if len(cc.Body) == 0 {
+			continue
+		}
+		bs, ok := cc.Body[len(cc.Body)-1].(*ast.BranchStmt)
+		if !ok || bs.Tok != token.CONTINUE || bs.Label != nil {
+			continue
+		}
+		for _, e := range cc.List {
+			if id, ok := e.(*ast.Ident); ok {
+				out = append(out, id.Name)
+			}
+		}
+	}
+	return out
+}
+
 func senLeanList(xs []string) string {
 	q := make([]string, len(xs))
 	for i, x := range xs {
@@ -194,7 +355,10 @@ func extractSenFacts(repo, out string) ([]string, error) {
 	var b strings.Builder
 	b.WriteString("/- GENERATED by /verif/tools/extract (sen.go) from sen/parser.go, sen/tokenizer.go — do not edit; rewritten on every run. -/\n")
 	b.WriteString("namespace OjgVerif.Gen.SenFacts\n\n")
-	for _, r := range []struct{ lean, typ, fn, stop string; f *ast.File }{
+	for _, r := range []struct {
+		lean, typ, fn, stop string
+		f                   *ast.File
+	}{
 		{"parseResets", "Parser", "Parse", "parseBuffer", pf},
 		{"parseReaderResets", "Parser", "ParseReader", "parseBuffer", pf},
 		{"tokParseResets", "Tokenizer", "Parse", "tokenizeBuffer", tf},
@@ -216,6 +380,37 @@ func extractSenFacts(repo, out string) ([]string, error) {
 	}
 	fmt.Fprintf(&b, "/-- case labels of `switch p.mode[b]` in sen.Parser.parseBuffer -/\ndef parserCases : List String := %s\n\n", senLeanList(pc))
 	fmt.Fprintf(&b, "/-- case labels of `switch t.mode[b]` in sen.Tokenizer.tokenizeBuffer -/\ndef tokenizerCases : List String := %s\n\n", senLeanList(tc))
+	psw, _, err := senSwitch(pf, "Parser", "parseBuffer")
+	if err != nil {
+		return nil, err
+	}
+	tsw, trecv, err := senSwitch(tf, "Tokenizer", "tokenizeBuffer")
+	if err != nil {
+		return nil, err
+	}
+	pn, err := senIndexCount(pf, "Parser", "parseBuffer", "spaceMap")
+	if err != nil {
+		return nil, err
+	}
+	tn, err := senIndexCount(tf, "Tokenizer", "tokenizeBuffer", "spaceMap")
+	if err != nil {
+		return nil, err
+	}
+	fmt.Fprintf(&b, "/-- `spaceMap[…]` index expressions in parseBuffer (the whitespace skip after a newline) -/\ndef parserSpaceMapIndexed : Nat := %d\n\n", pn)
+	fmt.Fprintf(&b, "/-- `spaceMap[…]` index expressions in tokenizeBuffer -/\ndef tokenizerSpaceMapIndexed : Nat := %d\n\n", tn)
+	ua, err := senUncheckedAsserts(pf, "Parser", "addString")
+	if err != nil {
+		return nil, err
+	}
+	fmt.Fprintf(&b, "/-- one-valued (panicking) type assertions in (*Parser).addString -/\ndef addStringUnchecked : Nat := %d\n\n", ua)
+	pco, tco, tsq := senCaseClause(psw, "closeObject"), senCaseClause(tsw, "closeObject"), senCaseClause(tsw, "strQuote")
+	if pco == nil || tco == nil || tsq == nil {
+		return nil, fmt.Errorf("sen: case closeObject / strQuote not found")
+	}
+	fmt.Fprintf(&b, "/-- messages of the newError calls in `case closeObject` of parseBuffer -/\ndef parserCloseObjectMsgs : List String := %s\n\n", senLeanList(senErrorMsgs(pco)))
+	fmt.Fprintf(&b, "/-- messages of the newError calls in `case closeObject` of tokenizeBuffer -/\ndef tokenizerCloseObjectMsgs : List String := %s\n\n", senLeanList(senErrorMsgs(tco)))
+	fmt.Fprintf(&b, "/-- receiver fields named in `case strQuote` of tokenizeBuffer -/\ndef tokenizerStrQuoteFields : List String := %s\n\n", senLeanList(senFieldsNamed(tsq, trecv)))
+	fmt.Fprintf(&b, "/-- cases of the tokenizer switch whose last statement is `continue` -/\ndef tokenizerContinueCases : List String := %s\n\n", senLeanList(senContinueCases(tsw)))
 	b.WriteString("end OjgVerif.Gen.SenFacts\n")
 	ch, err := writeIfChanged(filepath.Join(out, "SenFacts.lean"), b.String())
 	if err != nil {
